@@ -42,6 +42,13 @@ checks = {
  "C08": dict(cat="model_checking", ref="DESIGN.md 4 C08",
    text="The specification's WHERE stage recurses into elements that are arrays (the whole query is applied inside) and projection passes inner dimensions through; TLC checks for every ragged depth-2 / depth-3 document x filter/projection query that the result is exactly 'the flat query inside every innermost array, nesting preserved' and that mix=> followed by one query is the concatenation; every case is replayed against the real library and, independently of the specification, the flat query is executed on each innermost array alone and compared part by part.",
    tech="TLA+ specification (Genql StWhere recursion / Pipeline, Selector mix) model-checked with TLC; exported behaviours replayed; per-inner-array executions of the real engine compared"),
+ "C11": dict(cat="model_checking", ref="DESIGN.md 4 C11",
+   text="Markers.tla models everything a query writes into the caller's document (the <- back-reference per row under nested comparison / subquery / EXISTS frames, CTE registration, the EXISTS row extension) with a failure enabled at every step; TLC checks on all behaviours that the document is restored whenever New/Exec return, successfully or not, and - as a non-vacuity audit - that each of the three repaired deviations of the pinned tree violates the invariant. The model is bound to the code by replay: every fault shape of MC_C19 at every fault point k, and reduced configurations of the C01/C03/C05/C06/C07/C08 families, plain and Wrapped, with a cycle-safe deep comparison of the caller's document after every call and after a follow-up call.",
+   tech="TLA+ specification (Markers.tla protocol model with fault action; Engine DocUnchanged) model-checked with TLC incl. expected-violation deviation configs; TLC-enumerated query families and fault points replayed with deep document comparison"),
+ "C19": dict(cat="fault_enumeration", ref="DESIGN.md 4 C19",
+   text="TLC enumerates query shapes with a fault-injecting function in every clause position the engine can express (and self-raising RAISE / RAISE_WHEN / type-error shapes) x tables and gives their fault-free meaning; the harness measures the number N of invocations of the fault-free run and re-runs with the k-th invocation failing for every k in 1..N, plain and Wrapped: New/Exec must report a failure and return no rows, no panic may escape, and the same statement re-run on the same document object must return the fault-free result.",
+   tech="TLA+ specification (MC_C19 shapes over Genql/Engine, NoPartial invariant; Markers.tla for the cleanup protocol) model-checked with TLC; exhaustive fault enumeration k = 1..N per exported shape against the Go library",
+   note="Exhaustive over the enumerated shapes x tables x every invocation index; other query shapes are not covered. The join ON position cannot hold a function in this engine and is covered by a failing derived table used as a join side."),
 }
 not_applicable = []
 m = {
